@@ -12,7 +12,8 @@ from .common import guarded, total
 import river.metrics as rm
 from river.metrics.base import Metric
 
-from ixai.utils.validators.loss import validate_loss_function
+from ixai.utils.validators import validate_loss_function                       # the public entry point (package level)
+from ixai.utils.validators.loss import validate_loss_function as _validate_loss_function_module_level
 from ixai.utils.wrappers.river import RiverMetricToLossFunction
 
 ID = 'C13'
@@ -137,6 +138,13 @@ def _abstract_validator(env, cfg):
     env.claim('wraps_the_given_object', loss._river_metric is m)
     f = guarded(env, 'validate_plain_callable', validate_loss_function, _plain)
     env.claim('plain_callable_returned_unchanged', f is _plain)
+    # a second metric OBJECT of the same class (other state / parameters) gets its own loss, through either entry point
+    for validate in (validate_loss_function, _validate_loss_function_module_level):
+        m2 = AbstractMetric(env, cfg['dict_input'], cfg['bigger'])
+        s2 = m2.state
+        loss2 = guarded(env, 'validate_loss_function', validate, m2)
+        env.claim('every_metric_object_gets_its_own_loss', isinstance(loss2, RiverMetricToLossFunction) and loss2._river_metric is m2
+                  and loss2 is not loss and m2.state.eq(s2) and m.state.eq(s0))
 
 
 def _plain(y_true, y_pred):
